@@ -3,7 +3,8 @@ import QmiModel.Lemmas.C16Round
 # C16 — the constructor call `cls(**items)` at the end of `_parse_config_struct`
 
 `@configstruct.__init__` validates every keyword value again with `_parse_config_value(value, f.type, [])`;
-the values it sees are *already parsed* (tuples, nested instances — the latter go through `dataclasses.asdict`).
+the values it sees are *already parsed* (tuples, nested instances — an instance is validated through its own
+items, see the `.inst` branch of `parseValue`; before commit f3ca37f through `dataclasses.asdict`, lemmas kept below).
 `Model/Config.lean` models that call as "build the instance". This file proves that this is faithful for
 well-formed descriptors: the re-validation of parsed items cannot fail and stores the items unchanged.
 -/
@@ -295,11 +296,25 @@ theorem admits_self : ∀ (τ : Ty) (j v : PV), wf τ = true → isJson j = true
       simp only [isJson] at hj
       simp only [wf, Bool.and_eq_true, Bool.not_eq_eq_eq_not, Bool.not_true] at hw
       have hkeys := hf.keys
-      refine .structInst (admitsF_asdict fs _ _ hw.2 hj hf (asdictK _) ?_) ?_
+      refine .structInst (admitsF_self fs _ _ hw.2 hj hf _ ?_) ?_
       · intro n y hm
-        exact assoc_asdictK_of_nodup (by rw [hkeys]; exact hw.1) hm
-      · rw [keysOf_asdictK, hkeys]; exact fun k hk => hk
+        exact assoc_of_nodup (by rw [hkeys]; exact hw.1) hm
+      · rw [hkeys]; exact fun k hk => hk
     | structInst hf hk => simp [isJson] at hj
+theorem admitsF_self : ∀ (fs : List Field) (kvs items : List (Str × PV)), wfF fs = true → isJsonK kvs = true →
+    AdmitsF fs kvs items →
+    ∀ (all : List (Str × PV)), (∀ n y, (n, y) ∈ items → assoc n all = some y) → AdmitsF fs all items
+  | [], kvs, items, _, _, h, all, _ => by cases h; exact .nil all
+  | (n, t, d) :: fs, kvs, items, hw, hj, h, all, hall => by
+    simp only [wfF, Bool.and_eq_true] at hw
+    cases h with
+    | present ha hx hr =>
+      refine .present (hall _ _ (by simp)) (admits_self t _ _ hw.1.1 (isJson_of_assoc hj ha) hx) ?_
+      exact admitsF_self fs kvs _ hw.1.2 hj hr all (fun n y hm => hall n y (by simp [hm]))
+    | default ha hr =>
+      rename_i dv items'
+      refine .present (hall _ _ (by simp)) (admits_self t _ _ hw.1.1 (isJson_toDict dv) (default_admits hw.2)) ?_
+      exact admitsF_self fs kvs _ hw.1.2 hj hr all (fun n y hm => hall n y (by simp [hm]))
 theorem admitsT_self : ∀ (ts : List Ty) (xs ys : List PV), wfL ts = true → isJsonL xs = true →
     AdmitsT ts xs ys → AdmitsT ts ys ys
   | [], xs, ys, _, _, h => by cases h; exact .nil
